@@ -56,3 +56,102 @@ func zzInspectAVP(a *AVP) {
 	_ = a.Data.Type()
 	_ = datatype.UnknownType
 }
+
+// zzC03_msg: every complete message (declared length == bytes supplied) of 20..20+N bytes offered to
+// ReadMessage under every dictionary answer, then one of the inspections.
+func zzC03_msg() {
+	body := vLen("body", 0, vParam("N", 12))
+	n := 20 + body
+	b := vBytes("b", n)
+	d := vAbstractDict()
+	vNoPanic()
+	ml := int(b[1])<<16 | int(b[2])<<8 | int(b[3])
+	vAssume(ml == n)
+	vAllocLimit(64*n + 4096 + 2*MessageBufferLength)
+	m, err := ReadMessage(zzNewReader(b), d)
+	if err == nil {
+		zzInspectMessage(m)
+	}
+	vReach("C03_msg")
+}
+
+// zzC03_trunc: every stream of 0..20+N bytes whose declared length differs from the bytes supplied
+// (truncated at every offset, declared length 0..19, trailing bytes).
+func zzC03_trunc() {
+	nmax := vParam("N", 12) + 20
+	n := vLen("n", 0, nmax)
+	b := vBytes("b", n)
+	d := vAbstractDict()
+	vNoPanic()
+	if n >= 20 {
+		ml := int(b[1])<<16 | int(b[2])<<8 | int(b[3])
+		vAssume(ml != n)
+		// longer declared lengths are the subject of zzC03_alloc
+		vAssume(ml <= nmax)
+		vKnown("KF-C03-msglen-underflow", ml < 20)
+	}
+	vAllocLimit(64*n + 4096 + 2*MessageBufferLength)
+	r := zzNewReader(b)
+	m, err := ReadMessage(r, d)
+	if err == nil {
+		vAssert(n >= 20 && r.off == int(m.Header.MessageLength), "consumed exactly the declared length")
+		_ = m.String()
+	}
+	vReach("C03_trunc")
+}
+
+func zzInspectMessage(m *Message) {
+	// one kind of inspection per path (sum, not product, of their branchings)
+	switch vChoice("inspect", 4) {
+	case 0:
+		_ = m.String()
+		out, err := m.Serialize()
+		vAssert(err != nil || len(out) == m.Len(), "Serialize size equals Len")
+	case 1:
+		_ = m.PrettyDump()
+	case 2:
+		for _, a := range m.AVP {
+			zzInspectAVP(a)
+		}
+	case 3:
+		code := vU32("findcode")
+		_, _ = m.FindAVP(code, 0)
+		_, _ = m.FindAVPs(code, 0)
+		_, _ = m.FindAVPsWithPath([]interface{}{code, vU32("findcode2")}, 0)
+	}
+}
+
+// zzC03_alloc: memory is bounded by the bytes supplied, not by the length the header claims.
+// A complete 20-byte header with an arbitrary 24-bit declared length followed by k <= 8 body bytes.
+func zzC03_alloc() {
+	k := vLen("k", 0, vParam("K", 4))
+	b := vBytes("b", 20+k)
+	d := vAbstractDict()
+	vNoPanic()
+	ml := int(b[1])<<16 | int(b[2])<<8 | int(b[3])
+	limit := 64*(20+k) + 4096 + 2*MessageBufferLength
+	// declared lengths in (20+k, limit] allocate no more than the property tolerates and behave like
+	// the truncated-message case of zzC03_msg; they are not enumerated here
+	vAssume(ml <= 20+k || ml > limit)
+	vKnown("KF-C03-msglen-underflow", ml < 20)
+	vKnown("KF-C03-claimed-alloc", ml > limit)
+	vAllocLimit(limit)
+	m, err := ReadMessage(zzNewReader(b), d)
+	vAllocCheck()
+	if err == nil {
+		vAssert(m != nil, "message returned")
+	}
+	vReach("C03_alloc")
+}
+
+// zzC03_pretty_helpers: the pure display helpers that the message-level harnesses summarise
+// (boolToSymbol, appIdToString, flagsToString) executed in isolation on every input.
+func zzC03_pretty_helpers() {
+	vNoPanic()
+	_ = boolToSymbol(vBool("flag"))
+	_ = appIdToString(int(vU64("appid")))
+	h := &Header{CommandFlags: vU8("flags")}
+	a, b, c, d := flagsToString(h)
+	vAssert(len(a) > 0 && len(b)+len(c)+len(d) >= 0, "flag strings")
+	vReach("C03_pretty_helpers")
+}
